@@ -20,7 +20,7 @@ import (
 
 func TestC09Rapid(t *testing.T) {
 	rec := evid.For("C09")
-	runRapid(t, 1000, 12000, func(rt *rapid.T) {
+	runRapid(t, 600, 12000, func(rt *rapid.T) {
 		c := rec.Begin()
 		tc := newTwoChain(tcOpts{nExecutors: 1, otherFirst: rapid.IntRange(0, 1).Draw(rt, "otherFirst"), lateBridgeInfo: rapid.IntRange(0, 3).Draw(rt, "lateBridgeInfo") == 0})
 		l2 := tc.l2
